@@ -13,6 +13,7 @@ import Driver.C04
 import Driver.C07
 import Driver.C09
 import Driver.C14
+import Driver.C15
 import Driver.C16
 import Driver.C10
 import Driver.C17
@@ -33,6 +34,7 @@ def dispatch (line : String) : String :=
   | "C07" :: r => Driver.C07.handle r
   | "C09" :: r => Driver.C09.handle r
   | "C14" :: r => Driver.C14.handle r
+  | "C15" :: r => Driver.C15.handle r
   | "C16" :: r => Driver.C16.handle r
   | "C10" :: r => Driver.C10.handle r
   | "C17" :: r => Driver.C17.handle r
